@@ -126,7 +126,6 @@ func hasQuantifier(ts []*Term) bool {
 	return false
 }
 
-
 func flattenAnd(ts []*Term) []*Term {
 	var out []*Term
 	for _, t := range ts {
@@ -251,7 +250,7 @@ func Discharge(obls []*Obligation, counts map[*Obligation][]*countDef, cfg RunCo
 			// canary: only the quantifier-free part, short budget; "unsat" here means a contradictory precondition
 			var qf []*Term
 			for _, h := range hyps {
-				if !hasQuantifier([]*Term{h}) {
+				if !hasQuantifier([]*Term{h}) || !strings.HasSuffix(o.Name, ":entry") {
 					qf = append(qf, h)
 				}
 			}
